@@ -62,7 +62,12 @@ def run_case(case):
     for w in range(case["windows"]):
         T = int(rng.choice([40, 80, 120])) if not big else int(rng.choice([30, 50]))
         ph = float(rng.choice([0.0, rng.uniform(0, 6.28)]))
-        spec["ops"].append({"op": "pulse", "ch": "g", "amp": ["const", T, float(rng.uniform(0.5, amp_max))], "det": ["const", T, float(rng.uniform(-8, 8))], "phase": ph})
+        a_, d_ = float(rng.uniform(0.5, amp_max)), float(rng.uniform(-8, 8))
+        if w > 0 and rng.random() < 0.4:  # phase-only step: same amplitude and detuning as the previous window, another phase
+            prev = [op for op in spec["ops"] if op["op"] == "pulse" and op["ch"] == "g"][-1]
+            a_, d_ = prev["amp"][2], prev["det"][2]
+            ph = float(prev["phase"] + rng.uniform(0.3, 3.0))
+        spec["ops"].append({"op": "pulse", "ch": "g", "amp": ["const", T, a_], "det": ["const", T, d_], "phase": ph})
         if case["local"] and rng.random() < 0.7:
             spec["ops"].append({"op": "pulse", "ch": "l", "amp": ["const", T, float(rng.uniform(0.5, amp_max))], "det": ["const", T, float(rng.uniform(-5, 5))],
                                 "phase": ph, "protocol": "no-delay"})
